@@ -163,6 +163,15 @@ class Seq:
         return Seq(n1 + other.n, lambda i: If(zint(i) < zint(n1), self.get(i), other.get(i - n1)))
 
 
+class Seq2(Seq):
+    """row-major flattening of a rows x cols table given by get2(i, j): the index arithmetic i // cols, i % cols (non-linear
+    for a symbolic cols) is only the fallback; consumers that know about tables use get2"""
+
+    def __init__(self, rows, cols, get2, tag=None):
+        self.rows, self.cols, self.get2 = rows, cols, get2
+        Seq.__init__(self, rows * cols, lambda i: get2(zint(i) / zint(cols), zint(i) % zint(cols)), tag)
+
+
 def seq_eq_goals(ctx, a, b, what):
     """[(name, formula)] equivalent to a == b : same length and pointwise equal at a fresh index"""
     k = ctx.fresh_const("i_" + what)
@@ -189,6 +198,7 @@ class Ctx:
         self.infold = []          # forks taken inside summarised loops: [decision prefix, arm, fold depth]
         self.fork_outcomes = []   # (decision prefix, arm, 'normal' | 'raise')
         self.axioms_added = set()
+        self.guards = []          # conditions of the predicated `if` bodies being executed (innermost last)
 
     # ---- naming
     def uid(self):
